@@ -177,6 +177,7 @@ type World struct {
 	Prefer func(parked []*Call) int
 
 	mu      sync.Mutex
+	frozen  bool
 	hold    func(*Call) bool // calls it accepts are frozen when they arrive (see Hold)
 	held    []*Call
 	yielder   *Client
@@ -643,6 +644,17 @@ func (w *World) applyLocked(c *Call, f Kind, choice, nparked int) result {
 		if c.Disk != nil {
 			res = result{err: &os.PathError{Op: c.Op.String(), Path: c.Key, Err: syscall.EIO}}
 		}
+	case FReset:
+		if c.Op != OpGet && c.Op != OpGetVersion {
+			res = result{err: fmt.Errorf("sim: transient error on %s %s: %w", c.Op, c.Key, ErrTransient)}
+			break
+		}
+		if res = c.target().apply(c); res.err == nil {
+			res.reset, res.cut = true, 0
+			if len(res.data) > 1 {
+				res.cut = 1 + w.S.Choose(len(res.data)-1) // at least one byte is delivered (nothing delivered is F-ERR)
+			}
+		}
 	case FCrashB:
 		cl.Dead, cl.DeadAt = true, w.Seq
 		res = result{err: ErrClientDead}
@@ -712,7 +724,19 @@ func (w *World) SeqNow() int {
 }
 
 // EventHash is the hash of the rendered event log so far.
-func (w *World) EventHash() string { return hex.EncodeToString(w.hash.Sum(nil)) }
+func (w *World) EventHash() string {
+	w.mu.Lock()
+	defer w.mu.Unlock()
+	return hex.EncodeToString(w.hash.Sum(nil))
+}
+
+// Freeze ends the run: calls arriving from now on (goroutines the scenario left behind, which keep running in the
+// unscheduled mode B) fail without touching the world, so that its counters, log and hashes can be read.
+func (w *World) Freeze() {
+	w.mu.Lock()
+	w.frozen = true
+	w.mu.Unlock()
+}
 
 // Tail renders the last n events.
 func (w *World) Tail(n int) []string {
